@@ -97,6 +97,55 @@ theorem C06_table_single (name : Str) (kvs : List (Str × Str))
   obtain ⟨W, h1, _, h2⟩ := table_single name kvs hname hkeys hnodup hne hvals
   exact ⟨_, h1, h2⟩
 
+/-! ## What the writer refuses (the complement of the hypotheses above) -/
+
+/-- **Names that `_<category>.<column>` cannot give back are refused** (after two `fix:` commits):
+a category or column name containing `.` or any whitespace character makes `serialize()` raise
+`SerializationError` — exactly the names excluded by the first two clauses of `NameOk`. -/
+theorem C06_bad_names_rejected (name : Str) (cols : List (Str × List Str)) (hne : cols ≠ [])
+    (hbad : ∃ l ∈ name :: cols.map (·.1), '.' ∈ l ∨ ∃ c ∈ l, isWs c = true) :
+    categorySerialize name cols = .error serr := by
+  obtain ⟨l, hl, hb⟩ := hbad
+  have hany : (name :: cols.map (·.1)).any (fun l => has '.' l || l.any isWs) = true := by
+    simp only [List.any_eq_true]
+    refine ⟨l, hl, ?_⟩
+    rcases hb with hd | ⟨c, hc, hw⟩
+    · simp [has_iff, hd]
+    · simp only [Bool.or_eq_true, List.any_eq_true]; exact Or.inr ⟨c, hc, hw⟩
+  cases cols with
+  | nil => exact absurd rfl hne
+  | cons kv rest => simp only [categorySerialize, hany, if_true]
+
+/-- A block name containing a line boundary is refused. -/
+theorem C06_block_name_rejected (name : Str) (cats : List (Str × Cols)) (h : ∃ c ∈ name, isBreak c = true) :
+    blockSerialize name cats = .error serr := by
+  have : name.any isBreak = true := by simpa [List.any_eq_true] using h
+  simp [blockSerialize, this]
+
+/-- A category without columns is refused with `ValueError`; columns of different lengths (under
+good names) with `SerializationError`. -/
+theorem C06_serialize_rejects (name : Str) :
+    categorySerialize name [] = .error .valueError ∧
+    ∀ (k1 k2 : Str) (c1 c2 : List Str), NameOk name → NameOk k1 → NameOk k2 → c1.length ≠ c2.length →
+      categorySerialize name [(k1, c1), (k2, c2)] = .error serr := by
+  refine ⟨rfl, ?_⟩
+  intro k1 k2 c1 c2 hn h1 h2 hlen
+  have hlab := labels_ok name [k1, k2] hn (by
+    intro k hk
+    simp only [List.mem_cons, List.mem_nil_iff, or_false] at hk
+    rcases hk with rfl | rfl <;> assumption)
+  have hany : ([(k1, c1), (k2, c2)].any fun kv => kv.2.length != c1.length) = true := by
+    simp only [List.any_cons, List.any_nil, bne_self_eq_false, Bool.false_or, Bool.or_false, bne_iff_ne, ne_eq]
+    exact fun e => hlen e.symm
+  simp only [categorySerialize, List.map_cons, List.map_nil, hlab, Bool.false_eq_true, if_false, hany, if_true]
+
+/-- An explicit `row_count` that contradicts the first column (constructor argument of
+`BinaryCIFCategory`, or the `rowCount` of a file) makes `serialize()` refuse. -/
+theorem C06_rowcount_explicit_rejects {κ : Type} [BEq κ] (binary : Bool) (k : κ) (n m : Nat) (rest : List (κ × Nat))
+    (h : n ≠ m) : (rcStep binary ⟨(k, n) :: rest, some m⟩ .ser).2 = .error serr := by
+  have hb : (n != m) = true := by simpa [bne_iff_ne] using h
+  simp [rcStep, rcSerLoop, hb]
+
 /-! ## Blocks and files: no written line can be misread as a header or a boundary -/
 
 /-- **Line-start safety lifted from tokens to lines.**  The lines `W` that `CIFCategory.serialize`
@@ -349,7 +398,7 @@ Each excluded case loses data (`…_defect` theorems below).  This is the catego
 inside a block/file the later lines must in addition not start with `_`, `loop_` or `data_`
 (those are cut by `CIFBlock/CIFFile.deserialize`; known findings, exercised by the oracle only). -/
 theorem C06_multiline_partial (l0 : Str) (ls : List Str) (hml : ls ≠ [] ∨ BothQuotes l0)
-    (h0nl : '\n' ∉ l0) (h0 : l0 = [] ∨ ∃ s c, l0 = s ++ [c] ∧ isWs c = false)
+    (h0nl : NoBreak l0) (h0 : l0 = [] ∨ ∃ s c, l0 = s ++ [c] ∧ isWs c = false)
     (hls : ∀ l ∈ ls, KeptLine l) :
     readTokens (escape (joinNl (l0 :: ls))) = .ok [joinNl (l0 :: ls)] := by
   have hesc : escape (joinNl (l0 :: ls)) = multiline (joinNl (l0 :: ls)) := by
@@ -417,7 +466,7 @@ theorem C06_mixed_row_partial (segs : List Seg) (h : ∀ s ∈ segs, s.Ok) :
 /-- Special case: a single-line value with both quote characters that does not end with a blank. -/
 theorem C06_both_quotes_partial (v : Str) (hs : SingleLine v) (hb : BothQuotes v)
     (hlast : ∃ s c, v = s ++ [c] ∧ isWs c = false) : readTokens (escape v) = .ok [v] := by
-  have := C06_multiline_partial v [] (Or.inr hb) (singleLine_no_nl v hs) (Or.inr hlast) (by simp)
+  have := C06_multiline_partial v [] (Or.inr hb) hs (Or.inr hlast) (by simp)
   simpa [joinNl] using this
 
 /-! ## Multi-line values: what the current reader loses (known findings; witnesses replayed on the code) -/
@@ -429,6 +478,11 @@ def rt2 (v : Str) : Except Err (Str × List (Str × List Str)) :=
   match categorySerialize ['c'] [(['k'], [v, ['p']])] with
   | .ok t => categoryDeserialize t
   | .error e => .error e
+
+/-- **Other line boundaries** (`\r`, `\x0b`, `\x0c`, `\x1c`–`\x1e`, `\x85`, U+2028/9): `_escape` only routes
+`\n` to a multi-line value; `splitlines()` cuts the written line at every boundary character. -/
+theorem C06_other_line_break_defect :
+    rt2 ['a', '\r', 'b'] = .ok (['c'], [(['k'], [['a'], ['b', q1], ['p']])]) := by decide
 
 /-- blank line inside a multi-line value is lost -/
 theorem C06_multiline_blank_line_defect :
@@ -494,6 +548,8 @@ example : ([Seg.toks [str "a", str "#x"] [2, 0], Seg.ml (str "first") [str "seco
     [str "a   '#x'", str ";first", str "second line", str ";", str "b"] := by decide
 example : MCol.eq ⟨[str "x", str "y", str "z"], none⟩ ⟨[str "x", str "y", str "z"], some [0, 2, 1]⟩ = false ∧
     (MCol.mk [str "x", str "y", str "z"] (some [0, 2, 1])).render = [str "x", sQm, sDot] := by decide
+example : rt2 ['a', Char.ofNat 0xa0, 'b'] = .ok (['c'], [(['k'], [['a', Char.ofNat 0xa0, 'b'], ['p']])]) := by decide
+example : SingleLine ['a', Char.ofNat 0xa0, ' ', '\t', Char.ofNat 0x1f] := by unfold SingleLine; decide
 example : (rcRun (κ := Nat) false ⟨[(0, 2)], none⟩ [.ser, .set 0 3, .ser, .count]).2 =
     [.ok (some 2), .ok none, .ok (some 3), .ok (some 3)] := by decide
 example : NameOk (str "atom_site") := by unfold NameOk; decide
